@@ -75,6 +75,12 @@ def action_diff(sub, dec):
         return list(rd) + list(ld)
     if a == "clear":
         k = _single_key(dec)
+        if isinstance(sub, dict) and k not in sub:
+            # both sides ADDED the member (with different values): the cleared value of what they added is added
+            added = [e for e in list(ld) + list(rd) if e.get("op") == "add"]
+            if not added:
+                raise RefApplyError("action clear at %r on a member base does not have and no side adds" % (dec.get("common_path"),))
+            return [{"op": "add", "key": k, "value": cleared(added[0]["value"])}]
         return [{"op": "replace", "key": k, "value": cleared(sub[k])}]
     if a == "remove":
         k = _single_key(dec)
